@@ -217,6 +217,23 @@ pub fn run(tier: &Tier) -> i32 {
             code.push(print(PrintKind::Reg));
             progs.push((format!("delay loops {:?}", counts), Program { data: vec![], code }, false, true));
         }
+        // (c') the same self-targeting loop entered again and again (nested delay): 3 x 30 000, 2 x 40 000 rounds,
+        //      2 x 65 536 (CX = 0), and 40 x 2 000, for LOOP and for LOOPNZ with ZF clear
+        for (outer, inner) in [(3i32, 30000i32), (2, 40000), (2, 0), (40, 2000)] {
+            for mn in ["loop", "loopnz"] {
+                let mut code = vec![label("start"), mov(r16("bx"), imm(outer))];
+                code.push(label("outer_"));
+                code.push(mov(r16("cx"), imm(inner)));
+                code.push(bin(BinOp::Or, r16("si"), imm(1)));
+                code.push(label("inner_"));
+                code.push(jmp(mn, "inner_"));
+                code.push(un(UnOp::Inc, r16("ax")));
+                code.push(un(UnOp::Dec, r16("bx")));
+                code.push(jmp("jnz", "outer_"));
+                code.push(print(PrintKind::Reg));
+                progs.push((format!("nested delay: {} x {} rounds of {} onto itself", outer, inner, mn), Program { data: vec![], code }, false, true));
+            }
+        }
         // (d) every spelling, forward over and backward across a block of `d` instructions, under flag words
         //     that make every condition true once and false once (CX = 2, so LOOPx / JCXZ see CX != 0 too)
         let dists: Vec<usize> = if tier.thorough { vec![0, 1, 2, 127, 128, 129, 255, 256, 257, 1000] } else { vec![1, 256] };
@@ -286,7 +303,7 @@ pub fn run(tier: &Tier) -> i32 {
     };
     let mut cov = Coverage::default();
     cov.exhaustive = true;
-    cov.rule = "source `tgt: <mnemonic> tgt` for all 32 jump and 5 loop spellings of syntax.md in lower and upper case (74 programs) through the real Preprocessor; the emitted line executed by the real Interpreter for ALL 2^16 flag words x CX in {0,1} (jumps) resp. ALL 2^16 CX values x ZF x 4 flag words (JCXZ, LOOPx); outcome JMP(target)/NEXT, CX, flags and all registers compared with the Intel predicate table; synonyms and complementary pairs cross-checked on the recorded behaviour. Through the real binary: every LOOPx spelling jumping onto itself x ZF x CX in {1,2,5}, plain, single-stepped with -i and under a program-set trap flag; 9 conditional jumps taken and not taken around a block; delay loops of 30 000 - 65 536 rounds one after another; every one of the 37 spellings jumping forward over and backward across a block of d instructions (d in {1,256}; thorough {0,1,2,127,128,129,255,256,257,1000}, and 66 000 for je/loop/jcxz/jg) under 4 (thorough 9) flag words that make each condition true and false (stdout matched against the reference interpreter)".into();
+    cov.rule = "source `tgt: <mnemonic> tgt` for all 32 jump and 5 loop spellings of syntax.md in lower and upper case (74 programs) through the real Preprocessor; the emitted line executed by the real Interpreter for ALL 2^16 flag words x CX in {0,1} (jumps) resp. ALL 2^16 CX values x ZF x 4 flag words (JCXZ, LOOPx); outcome JMP(target)/NEXT, CX, flags and all registers compared with the Intel predicate table; synonyms and complementary pairs cross-checked on the recorded behaviour. Through the real binary: every LOOPx spelling jumping onto itself x ZF x CX in {1,2,5}, plain, single-stepped with -i and under a program-set trap flag; 9 conditional jumps taken and not taken around a block; delay loops of 30 000 - 65 536 rounds one after another, and nested delays that re-enter the same self-targeting loop (up to 131 072 rounds in all); every one of the 37 spellings jumping forward over and backward across a block of d instructions (d in {1,256}; thorough {0,1,2,127,128,129,255,256,257,1000}, and 66 000 for je/loop/jcxz/jg) under 4 (thorough 9) flag words that make each condition true and false (stdout matched against the reference interpreter)".into();
     cov.bounds = json!({"spellings": spellings.len(), "flag_words": 65536, "cx_values": 65536, "backgrounds": backgrounds.len(), "programs_through_the_binary": cli_n, "tier": tier.name()});
     cov.assumptions = common_assumptions();
     let cov = finish_cov(c, cov);
